@@ -138,6 +138,21 @@ def generate(g, tier):
         else: exp = ['ok', lib_out + (['REM after'] if C else []) + ['STRING end'], [], None]
         cases.append(dict(op='compile_file', opts=glob, file='proj/main.txt', files=files, cfgs=cfgs,
                           meta=dict(family='foreign-config', exp=exp, nwarn=(0 if eff['supress_command_not_exist'] or not eff['flipper_commands'] else 1))))
+    # the project file that counts is the one beside the path the caller NAMED — also when that path is a symbolic link to a file
+    # kept in another folder (with another config.yaml, or none)
+    for _ in range(count(tier, 40, 300)):
+        glob = dict(include_comments=r.choice([True, False]), supress_command_not_exist=r.choice([True, False]))
+        beside = r.choice([None, dict(include_comments=r.choice([True, False]), flipper_commands=r.choice([True, False]), supress_command_not_exist=r.choice([True, False]))])
+        far = r.choice([None, dict(include_comments=r.choice([True, False]), flipper_commands=r.choice([True, False]))])
+        eff, _u = effective(glob, beside)
+        text = 'REM note\nALTCODE 65\nHOLD k\nSTRING end'
+        cfgs = {}
+        if beside is not None: cfgs['proj'] = beside
+        if far is not None: cfgs['vault/scripts'] = far
+        if not eff['flipper_commands']: exp = ['err', 'flipper']
+        else: exp = ['ok', (['REM note'] if eff['include_comments'] else []) + ['ALTCODE 65', 'HOLD k', 'STRING end'], [], None]
+        cases.append(dict(op='compile_file', opts=glob, file='proj/main.txt', files={'vault/scripts/payload.txt': text}, symlinks={'proj/main.txt': 'vault/scripts/payload.txt'}, cfgs=cfgs,
+                          meta=dict(family='symlinked-entry', exp=exp, nocorr=True, nwarn=(0 if eff['supress_command_not_exist'] or not eff['flipper_commands'] else 1))))
     # options follow what the caller and the project file say NOW: the same Compiler object and the same folder, with the
     # options reassigned or config.yaml added / edited between two compilations
     from . import C17
